@@ -60,40 +60,40 @@ pub fn f7_tw_same<const M: usize, const TRY: bool>() {
         } else {
             bump.alloc_try_with(f).map_err(Some)
         };
-        assert!(empty_is_pristine(), "[C20] shared static sentinel modified");
+        vassert!(empty_is_pristine(), "NEVER: [C20] shared static sentinel modified");
         match r {
             Ok(x) => {
-                assert!(CALLS == 1, "[C02,C11] initialiser not called exactly once");
-                assert!(*x == v, "[C02] value read back differs from what the initialiser returned");
+                vassert!(CALLS == 1, "NEVER: [C02,C11] initialiser not called exactly once");
+                vassert!(*x == v, "NEVER: [C02] value read back differs from what the initialiser returned");
                 let p = x as *mut u64 as usize;
-                assert!(p & 7 == 0, "[C04] requested alignment of the value not honoured");
+                vassert!(p & 7 == 0, "NEVER: [C04] requested alignment of the value not honoured");
                 // NOTE: the reference points INSIDE the Result<T, E> slot (known finding D8 when M > align_of::<T>())
-                assert!(p >= data && p + 8 <= ptr0, "[C01] value outside the former free region");
-                assert!(DROPS[7] == 0, "[C11] error value materialised on success");
+                vassert!(p >= data && p + 8 <= ptr0, "NEVER: [C01] value outside the former free region");
+                vassert!(DROPS[7] == 0, "NEVER: [C11] error value materialised on success");
                 kani::cover!(true, "REACH: initialiser succeeded");
-                assert!(p & (M - 1) == 0, "[C04] reference returned by (try_)alloc_try_with not aligned to the minimum alignment");
+                vassert!(p & (M - 1) == 0, "NEVER: [C04] reference returned by (try_)alloc_try_with not aligned to the minimum alignment");
             }
             Err(Some(e)) => {
-                assert!(CALLS == 1, "[C11] initialiser not called exactly once");
-                assert!(fail, "[C11] error reported although the initialiser succeeded");
-                assert!(e.0 == code, "[C11] error payload differs from what the initialiser returned");
-                assert!(DROPS[7] == 0, "[C11] error value dropped inside the arena (caller would drop it again)");
+                vassert!(CALLS == 1, "NEVER: [C11] initialiser not called exactly once");
+                vassert!(fail, "NEVER: [C11] error reported although the initialiser succeeded");
+                vassert!(e.0 == code, "NEVER: [C11] error payload differs from what the initialiser returned");
+                vassert!(DROPS[7] == 0, "NEVER: [C11] error value dropped inside the arena (caller would drop it again)");
                 drop(e);
-                assert!(DROPS[7] == 1, "[C11] error value not delivered exactly once");
+                vassert!(DROPS[7] == 1, "NEVER: [C11] error value not delivered exactly once");
                 // same chunk: everything is handed back, including alignment padding
-                assert!(bump.chunk_capacity() == cap0, "[C11] space of the failed value not returned (capacity differs)");
-                assert!(c.cur_ptr() as usize == ptr0, "[C11] finger not rewound to its position before the call");
+                vassert!(bump.chunk_capacity() == cap0, "NEVER: [C11] space of the failed value not returned (capacity differs)");
+                vassert!(c.cur_ptr() as usize == ptr0, "NEVER: [C11] finger not rewound to its position before the call");
                 FORBID_ALLOC = true;
                 let again = bump.try_alloc_layout(Layout::new::<Result<u64, E>>());
                 FORBID_ALLOC = false;
-                assert!(again.is_ok(), "[C11] follow-up request of the same layout not served from the current chunk");
+                vassert!(again.is_ok(), "NEVER: [C11] follow-up request of the same layout not served from the current chunk");
                 kani::cover!(true, "REACH: initialiser failed, error delivered");
                 kani::cover!(M >= 8 || ptr0 & 7 != 0, "REACH: failed value had needed alignment padding");
             }
             Err(None) => {
-                assert!(TRY, "[C09] infallible method returned an allocation error");
-                assert!(CALLS == 0, "[C11] initialiser ran although space could not be reserved");
-                assert!(c.cur_ptr() as usize == ptr0, "[C09] finger moved by a failed reservation");
+                vassert!(TRY, "NEVER: [C09] infallible method returned an allocation error");
+                vassert!(CALLS == 0, "NEVER: [C11] initialiser ran although space could not be reserved");
+                vassert!(c.cur_ptr() as usize == ptr0, "NEVER: [C09] finger moved by a failed reservation");
                 kani::cover!(true, "INFO: space could not be reserved");
             }
         }
@@ -133,21 +133,21 @@ pub fn f7_tw_newchunk<const M: usize, const TRY: bool>() {
         };
         match r {
             Err(Some(e)) => {
-                assert!(CALLS == 1 && e.0 == code && DROPS[3] == 0, "[C11] error not delivered intact exactly once");
+                vassert!(CALLS == 1 && e.0 == code && DROPS[3] == 0, "NEVER: [C11] error not delivered intact exactly once");
                 drop(e);
-                assert!(DROPS[3] == 1, "[C11] error value not delivered exactly once");
-                assert!(NREC == 2, "[C11] expected exactly one new chunk for the Result slot");
-                assert!(NFREE == 0 && ledger_live_count() == 2, "[C03] a chunk was given back to the global allocator by a &self operation (outside reset/drop)");
+                vassert!(DROPS[3] == 1, "NEVER: [C11] error value not delivered exactly once");
+                vassert!(NREC == 2, "NEVER: [C11] expected exactly one new chunk for the Result slot");
+                vassert!(NFREE == 0 && ledger_live_count() == 2, "NEVER: [C03] a chunk was given back to the global allocator by a &self operation (outside reset/drop)");
                 let nreq = NREQ;
                 FORBID_ALLOC = true;
                 let again = bump.try_alloc_layout(Layout::new::<Result<T, E>>());
                 FORBID_ALLOC = false;
-                assert!(again.is_ok() && NREQ == nreq, "[C11] follow-up request of the same layout went to the global allocator");
-                assert!(bump.allocated_bytes_including_metadata() == ledger_live_bytes(), "[C08] accounting != bytes held");
+                vassert!(again.is_ok() && NREQ == nreq, "NEVER: [C11] follow-up request of the same layout went to the global allocator");
+                vassert!(bump.allocated_bytes_including_metadata() == ledger_live_bytes(), "NEVER: [C08] accounting != bytes held");
                 kani::cover!(true, "REACH: failed initialiser after a new chunk");
             }
             _ => {
-                assert!(false, "[C11] failing initialiser did not produce Err(Init)");
+                vassert!(false, "NEVER: [C11] failing initialiser did not produce Err(Init)");
             }
         }
     }
@@ -180,23 +180,23 @@ pub fn f7_tw_nested<const M: usize, const RELEASE: bool>() {
             }
             Err(9)
         });
-        assert!(r.is_err() && CALLS == 1, "[C11] failing initialiser did not produce its error");
+        vassert!(r.is_err() && CALLS == 1, "NEVER: [C11] failing initialiser did not produce its error");
         let ptr1 = c.cur_ptr() as usize;
         let foot = c.footer as usize;
-        assert!(ptr1 >= c.data as usize && ptr1 <= foot && ptr1 & (M - 1) == 0, "[C01] finger invalid after the failed call");
+        vassert!(ptr1 >= c.data as usize && ptr1 <= foot && ptr1 & (M - 1) == 0, "NEVER: [C01] finger invalid after the failed call");
         if RELEASE {
-            assert!(bump.chunk_capacity() == cap0, "[C11] space not reusable although the initialiser released what it allocated");
+            vassert!(bump.chunk_capacity() == cap0, "NEVER: [C11] space not reusable although the initialiser released what it allocated");
         } else {
             let k = kept as usize;
-            assert!(k >= ptr1 && k + 4 <= foot, "[C01,C11] block kept by the initialiser is no longer in the allocated region");
-            assert!(*kept == val, "[C02,C11] block kept by the initialiser was modified");
+            vassert!(k >= ptr1 && k + 4 <= foot, "NEVER: [C01,C10,C11] block kept by the initialiser is no longer in the allocated region (not covered by chunk iteration, will be handed out again)");
+            vassert!(*kept == val, "NEVER: [C02,C11] block kept by the initialiser was modified");
             // and a later allocation does not overlap it
             let p = bump.try_alloc_layout(Layout::new::<u64>());
             if let Ok(p) = p {
                 let p = p.as_ptr() as usize;
-                assert!(p + 8 <= k || k + 4 <= p, "[C01,C11] later allocation overlaps the block kept by the initialiser");
+                vassert!(p + 8 <= k || k + 4 <= p, "NEVER: [C01,C11] later allocation overlaps the block kept by the initialiser");
             }
-            assert!(*kept == val, "[C02] kept block changed by a later allocation");
+            vassert!(*kept == val, "NEVER: [C02] kept block changed by a later allocation");
         }
         kani::cover!(true, "REACH: end of harness");
     }
@@ -244,37 +244,85 @@ pub fn f7_try_fill<const M: usize, const ITER: bool, const USABLE: usize>() {
         };
         match r {
             Ok(s) => {
-                assert!(fail_at >= len, "[C11] success although the initialiser failed");
-                assert!(s.len() == len, "[C02] slice length differs from the request");
+                vassert!(fail_at >= len, "NEVER: [C11] success although the initialiser failed");
+                vassert!(s.len() == len, "NEVER: [C02] slice length differs from the request");
                 let i: usize = kani::any();
                 if i < len {
-                    assert!(s[i] == base + i as u32, "[C02] element differs from what the initialiser returned");
+                    vassert!(s[i] == base + i as u32, "NEVER: [C02] element differs from what the initialiser returned");
                     if !ITER {
-                        assert!(CALL_LOG[i] == i, "[C02] initialiser not called in index order");
+                        vassert!(CALL_LOG[i] == i, "NEVER: [C02] initialiser not called in index order");
                     }
                 }
                 if !ITER {
-                    assert!(CALLS == len, "[C02] initialiser not called once per element");
+                    vassert!(CALLS == len, "NEVER: [C02] initialiser not called once per element");
                 }
                 let p = s.as_ptr() as usize;
-                assert!(p & 3 == 0 && p & (M - 1) == 0, "[C04] slice alignment");
+                vassert!(p & 3 == 0 && p & (M - 1) == 0, "NEVER: [C04] slice alignment");
                 kani::cover!(len == 3, "REACH: three elements initialised");
                 kani::cover!(ITER || len == 0, "REACH: empty slice");
             }
             Err(e) => {
-                assert!(fail_at < len && e == code, "[C11] error differs from what the initialiser returned");
+                vassert!(fail_at < len && e == code, "NEVER: [C11] error differs from what the initialiser returned");
                 if !ITER {
-                    assert!(CALLS == fail_at + 1, "[C11] initialiser called after it failed");
+                    vassert!(CALLS == fail_at + 1, "NEVER: [C11] initialiser called after it failed");
                 }
                 // the reservation is reusable: same layout again without the global allocator
                 FORBID_ALLOC = true;
                 let again = bump.try_alloc_layout(Layout::array::<u32>(len).unwrap());
                 FORBID_ALLOC = false;
-                assert!(again.is_ok(), "[C11] follow-up request of the same layout not served from the current chunk");
+                vassert!(again.is_ok(), "NEVER: [C11] follow-up request of the same layout not served from the current chunk");
                 kani::cover!(fail_at == 0, "REACH: first element failed");
                 kani::cover!(fail_at == 2, "REACH: last element failed");
             }
         }
+    }
+}
+
+// ---------------------------------------------------------------------------
+// C11/C02: try_fill whose initialiser allocates in the same arena and keeps the block
+// ---------------------------------------------------------------------------
+pub fn f7_try_fill_nested<const M: usize>() {
+    let mut back = Backing::<304>([0u8; 304]);
+    unsafe {
+        calls_reset();
+        let off: usize = if M == 16 { 208 } else { 200 };
+        let c = small_chunk::<M>(back.0.as_mut_ptr(), 256, off);
+        let bump = mk_bump::<M>(c.footer, None);
+        let b: &Bump<M> = &bump;
+        let val: u32 = kani::any();
+        let fail_at: usize = kani::any();
+        kani::assume(fail_at >= 1 && fail_at <= 3);
+        let mut kept: *mut u32 = core::ptr::null_mut();
+        let kp = &mut kept as *mut *mut u32;
+        let r: Result<&mut [u32], u32> = b.alloc_slice_try_fill_with(3, |i| {
+            note_call(i);
+            if i == 0 {
+                *kp = b.alloc(val) as *mut u32;
+            }
+            if i == fail_at {
+                Err(7)
+            } else {
+                Ok(i as u32)
+            }
+        });
+        let ptr1 = c.cur_ptr() as usize;
+        let foot = c.footer as usize;
+        let k = kept as usize;
+        vassert!(k != 0 && k >= ptr1 && k + 4 <= foot, "NEVER: [C01,C02,C10,C11] block allocated and kept by a slice initialiser is no longer in the allocated region");
+        vassert!(*kept == val, "NEVER: [C02,C11] block kept by a slice initialiser was modified");
+        let p = bump.try_alloc_layout(Layout::new::<[u32; 3]>());
+        if let Ok(p) = p {
+            let p = p.as_ptr() as usize;
+            vassert!(p + 12 <= k || k + 4 <= p, "NEVER: [C01,C02,C11] later allocation overlaps the block kept by a slice initialiser");
+        }
+        let was_ok = r.is_ok();
+        if let Ok(s) = r {
+            let sp = s.as_ptr() as usize;
+            vassert!(fail_at == 3, "NEVER: [C11] success although the initialiser failed");
+            vassert!(sp + 12 <= k || k + 4 <= sp, "NEVER: [C01] slice overlaps the block its initialiser allocated");
+        }
+        kani::cover!(!was_ok, "REACH: slice initialiser failed after allocating");
+        kani::cover!(was_ok, "REACH: slice initialiser succeeded after allocating");
     }
 }
 
@@ -343,10 +391,10 @@ pub fn f7_init<const M: usize, const WHICH: u8>() {
                         Err(_) => return,
                     },
                 };
-                assert!(*r == v, "[C02] value read back differs from what was supplied");
-                assert!(w & 1 == 0 || CALLS == 1, "[C02] initialiser not called exactly once");
+                vassert!(*r == v, "NEVER: [C02] value read back differs from what was supplied");
+                vassert!(w & 1 == 0 || CALLS == 1, "NEVER: [C02] initialiser not called exactly once");
                 let p = r as *mut u32 as usize;
-                assert!(p & 3 == 0 && p & (M - 1) == 0 && p >= data && p + 4 <= ptr0, "[C01,C04] placement of the value");
+                vassert!(p & 3 == 0 && p & (M - 1) == 0 && p >= data && p + 4 <= ptr0, "NEVER: [C01,C04] placement of the value");
                 kani::cover!(w & 3 == 3, "REACH: [values] try_alloc_with");
             }
             1 => {
@@ -359,12 +407,12 @@ pub fn f7_init<const M: usize, const WHICH: u8>() {
                 } else {
                     bump.alloc_slice_copy(&src[..len])
                 };
-                assert!(r.len() == len, "[C02] slice length differs");
+                vassert!(r.len() == len, "NEVER: [C02] slice length differs");
                 if i < len {
-                    assert!(r[i] == src[i], "[C02] copied element differs from the source");
+                    vassert!(r[i] == src[i], "NEVER: [C02] copied element differs from the source");
                 }
                 let p = r.as_ptr() as usize;
-                assert!(p & 3 == 0 && p >= data && p + 4 * len <= ptr0, "[C01,C04] placement of the slice");
+                vassert!(p & 3 == 0 && p >= data && p + 4 * len <= ptr0, "NEVER: [C01,C04] placement of the slice");
                 kani::cover!(len == 3, "REACH: [copy] three elements copied");
             }
             2 => {
@@ -379,9 +427,9 @@ pub fn f7_init<const M: usize, const WHICH: u8>() {
                 } else {
                     bump.alloc_str(s)
                 };
-                assert!(r.len() == len, "[C02] string length differs");
+                vassert!(r.len() == len, "NEVER: [C02] string length differs");
                 if i < len {
-                    assert!(r.as_bytes()[i] == srcb[i], "[C02] string byte differs from the source");
+                    vassert!(r.as_bytes()[i] == srcb[i], "NEVER: [C02] string byte differs from the source");
                 }
                 kani::cover!(len == 3, "REACH: [str] three bytes copied");
             }
@@ -395,9 +443,9 @@ pub fn f7_init<const M: usize, const WHICH: u8>() {
                 } else {
                     bump.alloc_slice_clone(&src[..len])
                 };
-                assert!(r.len() == len, "[C02] slice length differs");
+                vassert!(r.len() == len, "NEVER: [C02] slice length differs");
                 if i < len {
-                    assert!(r[i] == src[i], "[C02] cloned element differs from the source");
+                    vassert!(r[i] == src[i], "NEVER: [C02] cloned element differs from the source");
                 }
                 kani::cover!(len == 3, "REACH: [clone] three elements cloned");
             }
@@ -415,10 +463,10 @@ pub fn f7_init<const M: usize, const WHICH: u8>() {
                 } else {
                     bump.alloc_slice_fill_with(len, f)
                 };
-                assert!(r.len() == len && CALLS == len, "[C02] initialiser not called once per element");
+                vassert!(r.len() == len && CALLS == len, "NEVER: [C02] initialiser not called once per element");
                 if i < len {
-                    assert!(CALL_LOG[i] == i, "[C02] initialiser not called in index order");
-                    assert!(r[i] == src[i % 3].wrapping_add(i as u32), "[C02] element differs from what the initialiser returned");
+                    vassert!(CALL_LOG[i] == i, "NEVER: [C02] initialiser not called in index order");
+                    vassert!(r[i] == src[i % 3].wrapping_add(i as u32), "NEVER: [C02] element differs from what the initialiser returned");
                 }
                 kani::cover!(len == 3, "REACH: [fill_with] three elements filled");
             }
@@ -442,10 +490,10 @@ pub fn f7_init<const M: usize, const WHICH: u8>() {
                         Err(_) => return,
                     },
                 };
-                assert!(r.len() == len, "[C02] slice length differs");
+                vassert!(r.len() == len, "NEVER: [C02] slice length differs");
                 if i < len {
                     let want = if w % 3 == 2 { 0 } else { v };
-                    assert!(r[i] == want, "[C02] filled element differs from the value supplied");
+                    vassert!(r[i] == want, "NEVER: [C02] filled element differs from the value supplied");
                 }
                 kani::cover!(len == 3 && w % 6 == 4, "REACH: [fill_val] try fill clone, three elements");
             }
@@ -461,17 +509,17 @@ pub fn f7_init<const M: usize, const WHICH: u8>() {
                 } else {
                     bump.alloc_slice_fill_iter(it)
                 };
-                assert!(r.len() == len && CALLS == len, "[C02] iterator not advanced once per element");
+                vassert!(r.len() == len && CALLS == len, "NEVER: [C02] iterator not advanced once per element");
                 if i < len {
-                    assert!(r[i] == v + i as u32, "[C02] iterator items not stored in order");
-                    assert!(CALL_LOG[i] == (v as usize) + i, "[C02] iterator not consumed in order");
+                    vassert!(r[i] == v + i as u32, "NEVER: [C02] iterator items not stored in order");
+                    vassert!(CALL_LOG[i] == (v as usize) + i, "NEVER: [C02] iterator not consumed in order");
                 }
                 kani::cover!(len == 3, "REACH: [fill_iter] three items taken from the iterator");
             }
         }
         // finger stays valid and nothing else in the footer changed
         let p1 = c.cur_ptr() as usize;
-        assert!(p1 >= data && p1 <= ptr0 && p1 & (M - 1) == 0, "[C01,C04] finger invalid after the allocation");
+        vassert!(p1 >= data && p1 <= ptr0 && p1 & (M - 1) == 0, "NEVER: [C01,C04] finger invalid after the allocation");
         kani::cover!(true, "REACH: end of harness");
     }
 }
@@ -528,6 +576,8 @@ f7cut!(f7_try_fill_with_m1, 6, f7_try_fill::<1, false, 256>());
 f7cut!(f7_try_fill_with_tiny_m1, 6, f7_try_fill::<1, false, 16>());
 f7cut!(f7_try_fill_with_tiny_m8, 6, f7_try_fill::<8, false, 16>());
 f7cut!(f7_try_fill_with_m8, 6, f7_try_fill::<8, false, 256>());
+f7cut!(f7_try_fill_nested_m1, 6, f7_try_fill_nested::<1>());
+f7cut!(f7_try_fill_nested_m16, 6, f7_try_fill_nested::<16>());
 f7cut!(f7_try_fill_iter_m1, 6, f7_try_fill::<1, true, 256>());
 f7cut!(f7_init_values_m1, 6, f7_init::<1, 0>());
 f7cut!(f7_init_values_m8, 6, f7_init::<8, 0>());
